@@ -20,7 +20,7 @@ func init() {
 		Technique: "sink census (filesystem opens reachable from the handler), interprocedural origin tracing of the document root, control-dependence of the open chain on the method test, switch/guard extraction of the error-to-status mapping, value-flow of Content-Length and body",
 		Meta: core.Meta{
 			Level:       "other",
-			Explanation: "Decides for bfe_modules/mod_static: (1) every content-opening filesystem call reachable from staticFileHandler is net/http.Dir.Open (no os.Open/OpenFile/ReadFile/... on a request path), its receiver is http.Dir(root) where root originates, through parameters and call sites, only from the rule's configured Action.Params, never from request data; (2) every such open is reached only after the request method was tested to be GET or HEAD, and the rejecting branch answers 405 without opening anything; (3) errorStatusCode returns 404 exactly under os.IsNotExist, 403 under os.IsPermission and otherwise 500; the open error is propagated unchanged from http.Dir.Open through newStaticFile/openStaticFile to that mapping, success is reported only when Open and Stat succeeded and the file is not a directory; (4) Content-Length is formatted from Size() of the staticFile that is also installed as the response body, whose FileInfo is the Stat of the opened file itself; the body is installed only on success and not for HEAD, and an opened file is either installed as body or closed on every path; (5) the BROWSE action's Params indices are covered by ActionFileCheck's parameter count. Not covered: net/http.Dir's own path cleaning and symlink behaviour (trusted stdlib), the os.Stat probe for pre-compressed siblings on the un-cleaned joined path (an existence oracle outside root, noted, not a read), byte equality of the streamed body, TOCTOU between Stat and read.",
+			Explanation: "Decides for bfe_modules/mod_static: (1) every content-opening filesystem call reachable from staticFileHandler is net/http.Dir.Open (no os.Open/OpenFile/ReadFile/... on a request path), its receiver is http.Dir(root) where root originates, through parameters and call sites, only from the rule's configured Action.Params, never from request data; (2) every such open is reached only after the request method was tested to be GET or HEAD, and the rejecting branch answers 405 without opening anything; (3) errorStatusCode returns 404 exactly under os.IsNotExist, 403 under os.IsPermission and otherwise 500; the open error is propagated unchanged from http.Dir.Open through newStaticFile/openStaticFile to that mapping, success is reported only when Open and Stat succeeded and the file is not a directory; (4) Content-Length is formatted from Size() of the staticFile that is also installed as the response body, whose FileInfo is the Stat of the opened file itself (called on the value http.Dir.Open returned, held in a local or read back from the File field); the body is installed only on success and not for HEAD, and an opened file is either installed as body or closed on every path (a branch taken only when the returned file is nil has nothing to close); the 405 and the errorStatusCode(err) status are set in the returning block or in a block of the same rejecting region that dominates it; (5) the BROWSE action's Params indices are covered by ActionFileCheck's parameter count. Not covered: net/http.Dir's own path cleaning and symlink behaviour (trusted stdlib), the os.Stat probe for pre-compressed siblings on the un-cleaned joined path (an existence oracle outside root, noted, not a read), byte equality of the streamed body, TOCTOU between Stat and read.",
 			RuleText:    "obligations = each filesystem sink reachable from the handler; each origin of the root argument; each open site's method gate; each return of errorStatusCode; each link of the error propagation chain; each Content-Length write and body store; each Params index",
 			Assumptions: []string{"net/http.Dir.Open confines names to its root (stdlib contract)", "mod_static writes response headers only through bfe_http.Header.Set/Add"},
 		},
@@ -41,6 +41,12 @@ func init() {
 			{Name: "browse-arity-one", File: "bfe_modules/mod_static/action.go", Old: "		if len(conf.Params) != 2 {", New: "		if len(conf.Params) != 1 {", Expect: "params-index"},
 			{Name: "silent-reorder-header-steps", File: "bfe_modules/mod_static/mod_static.go", Old: "	m.processContentType(resp, file)\n	m.processContentEncoding(resp, file)\n	m.processContentLength(resp, file)\n", New: "	m.processContentLength(resp, file)\n	m.processContentEncoding(resp, file)\n	m.processContentType(resp, file)\n", Silent: true},
 			{Name: "silent-gate-in-helper", File: "bfe_modules/mod_static/mod_static.go", Old: "	if httpRequest.Method != \"GET\" && httpRequest.Method != \"HEAD\" {", New: "	isRead := func(method string) bool { return method == \"GET\" || method == \"HEAD\" }\n	if !isRead(httpRequest.Method) {", Silent: true},
+			{Name: "silent-stat-on-opened-local", File: "bfe_modules/mod_static/static_file.go", Old: "\ts.File, err = http.Dir(root).Open(filename)\n\tif err != nil {\n\t\treturn nil, err\n\t}\n\n\ts.FileInfo, err = s.File.Stat()\n\tif err != nil {\n\t\ts.File.Close()\n\t\treturn nil, err\n\t}\n", New: "\topened, err := http.Dir(root).Open(filename)\n\tif err != nil {\n\t\treturn nil, err\n\t}\n\ts.File = opened\n\n\tinfo, err := opened.Stat()\n\tif err != nil {\n\t\topened.Close()\n\t\treturn nil, err\n\t}\n\ts.FileInfo = info\n", Silent: true},
+			{Name: "fileinfo-from-path-stat", File: "bfe_modules/mod_static/static_file.go", Old: "\ts.FileInfo, err = s.File.Stat()\n", New: "\ts.FileInfo, err = os.Stat(filepath.Join(root, filename))\n", Expect: "content-length|newStaticFile:fileinfo-is-stat-of-file"},
+			{Name: "silent-defensive-nil-file", File: "bfe_modules/mod_static/mod_static.go", Old: "\tm.state.FileBrowseSize.Inc(uint(file.Size()))\n", New: "\tif file == nil {\n\t\tresp.StatusCode = bfe_http.StatusInternalServerError\n\t\treturn resp\n\t}\n\tm.state.FileBrowseSize.Inc(uint(file.Size()))\n", Silent: true},
+			{Name: "non-nil-file-leaks-on-early-return", File: "bfe_modules/mod_static/mod_static.go", Old: "\tm.state.FileBrowseSize.Inc(uint(file.Size()))\n", New: "\tif file.Size() == 0 {\n\t\tresp.StatusCode = bfe_http.StatusNoContent\n\t\treturn resp\n\t}\n\tm.state.FileBrowseSize.Inc(uint(file.Size()))\n", Expect: "body-or-close"},
+			{Name: "silent-mapped-status-then-metric-branch", File: "bfe_modules/mod_static/mod_static.go", Old: "\t\tresp.StatusCode = errorStatusCode(err)\n\t\treturn resp\n", New: "\t\tresp.StatusCode = errorStatusCode(err)\n\t\tif len(defaultFile) == 0 {\n\t\t\tm.state.FileBrowseNotExist.Inc(0)\n\t\t}\n\t\treturn resp\n", Silent: true},
+			{Name: "silent-405-then-debug-branch", File: "bfe_modules/mod_static/mod_static.go", Old: "\t\tresp.StatusCode = bfe_http.StatusMethodNotAllowed\n\t\treturn resp\n", New: "\t\tresp.StatusCode = bfe_http.StatusMethodNotAllowed\n\t\tif openDebug {\n\t\t\tm.state.FileBrowseCount.Inc(0)\n\t\t}\n\t\treturn resp\n", Silent: true},
 			{Name: "silent-gate-as-switch", File: "bfe_modules/mod_static/mod_static.go", Old: "	if httpRequest.Method != \"GET\" && httpRequest.Method != \"HEAD\" {\n		resp.StatusCode = bfe_http.StatusMethodNotAllowed\n		return resp\n	}\n", New: "	switch httpRequest.Method {\n	case \"GET\", \"HEAD\":\n	default:\n		resp.StatusCode = bfe_http.StatusMethodNotAllowed\n		return resp\n	}\n", Silent: true},
 		},
 	})
@@ -286,18 +292,26 @@ func runC50(c *core.Ctx) {
 					continue
 				}
 				n++
+				// the 405 is set in the returning block or in a block of the
+				// rejecting region that dominates it (a debug line or a metric
+				// between the store and the return splits the block)
 				has405 := false
-				for _, in := range b.Instrs {
-					if st, ok := in.(*ssa.Store); ok {
-						if fa, ok := st.Addr.(*ssa.FieldAddr); ok {
-							if f := core.FieldObj(fa.X, fa.Field); f != nil && f.Name() == "StatusCode" && is405(st.Val) {
-								has405 = true
+				for _, b2 := range fn.Blocks {
+					if b2 != b && (!b2.Dominates(b) || mdEstablished(b2, methodOK)) {
+						continue
+					}
+					for _, in := range b2.Instrs {
+						if st, ok := in.(*ssa.Store); ok {
+							if fa, ok := st.Addr.(*ssa.FieldAddr); ok {
+								if f := core.FieldObj(fa.X, fa.Field); f != nil && f.Name() == "StatusCode" && is405(st.Val) {
+									has405 = true
+								}
 							}
 						}
-					}
-					if call, ok := in.(ssa.CallInstruction); ok && core.CallIs(call.Common(), "bfe_basic.CreateInternalResp") {
-						if a := call.Common().Args; len(a) == 2 && is405(a[1]) {
-							has405 = true
+						if call, ok := in.(ssa.CallInstruction); ok && core.CallIs(call.Common(), "bfe_basic.CreateInternalResp") {
+							if a := call.Common().Args; len(a) == 2 && is405(a[1]) {
+								has405 = true
+							}
 						}
 					}
 				}
@@ -433,6 +447,7 @@ func runC50(c *core.Ctx) {
 		}
 		// FileInfo is the Stat of the opened file
 		statOK, fileOK := false, false
+		fileOf, statOfOpen := map[ssa.Value]bool{}, map[ssa.Value]bool{}
 		core.Instrs(nsf, func(in ssa.Instruction) {
 			st, ok := in.(*ssa.Store)
 			if !ok {
@@ -450,15 +465,29 @@ func runC50(c *core.Ctx) {
 			case "File":
 				if c2, idx := mdCallOf(st.Val); open != nil && c2 == &open.Call && idx == 0 {
 					fileOK = true
+					fileOf[fa.X] = true
 				}
 			case "FileInfo":
 				if c2, idx := mdCallOf(st.Val); c2 != nil && c2.IsInvoke() && c2.Method.Name() == "Stat" && idx == 0 {
+					// the Stat receiver is the opened file: read back from the
+					// same staticFile's File field, or the value of the open call
+					// itself (held in a local before it is stored to File)
 					if x, ok := mdFieldLoadNamed(c2.Value, "File"); ok && x == fa.X {
 						statOK = true
+					}
+					if c3, i3 := mdCallOf(c2.Value); open != nil && c3 == &open.Call && i3 == 0 {
+						statOfOpen[fa.X] = true
 					}
 				}
 			}
 		})
+		// Stat of the open call's own result counts when that result is also what
+		// the same staticFile's File field holds
+		for x := range statOfOpen {
+			if fileOf[x] {
+				statOK = true
+			}
+		}
 		c.Check("content-length", "newStaticFile:file-is-opened-file", nsf.Pos(), fileOK, "staticFile.File must be the result of http.Dir.Open")
 		c.Check("content-length", "newStaticFile:fileinfo-is-stat-of-file", nsf.Pos(), statOK, "staticFile.FileInfo (the source of Size()) must be the Stat() of the same staticFile's File")
 
@@ -504,7 +533,14 @@ func runC50(c *core.Ctx) {
 				}
 				n++
 				mapped := false
-				for _, in := range r.Block().Instrs {
+				var instrs []ssa.Instruction
+				for _, b2 := range create.Blocks {
+					// the returning block and the blocks of the failure region that dominate it
+					if b2 == r.Block() || (b2.Dominates(r.Block()) && mdEstablished(b2, errIs(true))) {
+						instrs = append(instrs, b2.Instrs...)
+					}
+				}
+				for _, in := range instrs {
 					if st, ok := in.(*ssa.Store); ok {
 						if fa, ok := st.Addr.(*ssa.FieldAddr); ok {
 							if f := core.FieldObj(fa.X, fa.Field); f != nil && f.Name() == "StatusCode" {
@@ -629,7 +665,18 @@ func runC50(c *core.Ctx) {
 						}
 						return false
 					}
-					ok2 := via(s.Instrs[0]) || core.MustPass(create, s.Instrs[0], via) == nil
+					// a branch taken only when the returned file is nil (a defensive
+					// check) has nothing to install or close
+					noFile := func(pred, succ *ssa.BasicBlock) bool {
+						f2, ok := mdEdgeFact(pred, succ)
+						if !ok {
+							return false
+						}
+						x, nonNil, isNil := mdNilTest(f2)
+						c3, idx := mdCallOf(x)
+						return isNil && !nonNil && c3 == &oc.Call && idx == 0
+					}
+					ok2 := via(s.Instrs[0]) || mdReachSkippingEdges(s.Instrs[0], via, core.IsReturn, noFile) == nil
 					c.Check("body-or-close", "createRespFromStaticFile", s.Instrs[0].Pos(), ok2, "a path after a successful open returns without installing the file as response body or closing it (descriptor leak / wrong body)")
 				}
 			}
